@@ -1,6 +1,6 @@
 """pyvc.verify — VC generation per contract, solver portfolio, result records."""
 from __future__ import annotations
-import ast, os, re, subprocess, sys, tempfile, time, traceback, json, hashlib
+import ast, collections, os, re, subprocess, sys, tempfile, time, traceback, json, hashlib
 import z3
 from . import api, src
 from .core import (Unsupported, PathEnd, ReturnSig, BreakSig, ContinueSig, PyRaise, Obligation, Path, explore)
@@ -65,6 +65,18 @@ class Engine(Interp, ExprMixin, StmtMixin, CallMixin, MethodMixin):
             info['region_lines'] = (stmt.lineno, stmt.end_lineno)
         names = self.contract_names_for(c, mod)
         resolver = None
+        # module-level mutable state written by the function (a cache, a registry) makes the result depend on the history of
+        # calls: a contract over the arguments alone cannot be verified against it
+        from .interp import MUTATORS
+        local_ = {a.arg for a in fs.node.args.args + fs.node.args.kwonlyargs} | {n.id for n in ast.walk(fs.node) if isinstance(n, ast.Name) and isinstance(n.ctx, ast.Store)}
+        for n in ast.walk(fs.node):
+            nm = None
+            if isinstance(n, ast.Subscript) and isinstance(n.ctx, (ast.Store, ast.Del)) and isinstance(n.value, ast.Name):
+                nm = n.value.id
+            elif isinstance(n, ast.Call) and isinstance(n.func, ast.Attribute) and n.func.attr in MUTATORS and isinstance(n.func.value, ast.Name):
+                nm = n.func.value.id
+            if nm and nm not in local_ and nm not in c.params and isinstance(vars(mod).get(nm), (dict, list, set, collections.deque)):
+                raise Unsupported(f'the function writes module-level state `{nm}`: its result may depend on earlier calls, which a contract over the arguments cannot express')
 
         def run(p: Path):
             self.path = p
@@ -128,7 +140,16 @@ class Engine(Interp, ExprMixin, StmtMixin, CallMixin, MethodMixin):
             if outcome[0] == 'return':
                 fpost.extra['result'] = outcome[1] if c.yields is None else p.yields
                 for j, txt in enumerate(c.ensures):
-                    self.oblige(f'post#{j}', self.ev_text(txt, fpost), fs.node, txt)
+                    try:
+                        g_ = self.ev_text(txt, fpost)
+                    except PyRaise as ex_:
+                        if not getattr(ex_, 'implicit', False):
+                            raise
+                        # the clause speaks of something that does not exist on this path (e.g. the first event of a kind
+                        # that never happened): it does not hold here
+                        g_ = False
+                        txt = f'{txt}   [undefined on this path: {ex_.cls.__name__}]'
+                    self.oblige(f'post#{j}', g_, fs.node, txt)
                 if c.exact_raises:
                     for exc, cond in c.raises.items():
                         self.oblige(f'no-raise[{exc}]', self.lnot(self.ev_text(cond, fpre)), fs.node, cond)
